@@ -122,11 +122,11 @@ Definition abs_missing_msg (fname : string) : string := fname ++ " does not exis
 Definition get_pipeline_path (e : env) (name : string) (parent : pyparent) : res string :=
   let fname := name ++ ".yaml" in
   if is_abs fname then
-    if e_is_file e fname then Ok (norm_abs fname) else Err PNF (abs_missing_msg fname)
+    if e_is_file e fname then Ok (resolve (e_cwd e) fname) else Err PNF (abs_missing_msg fname)
   else
     let dirs := search_locations e parent in
     match find_first (e_is_file e) fname dirs with
-    | Some p => Ok (norm_abs p)
+    | Some p => Ok (resolve (e_cwd e) p)
     | None => Err PNF (not_found_msg fname dirs)
     end.
 
@@ -289,6 +289,14 @@ Definition get_pipeline (e : env) (st : state) (lname : string) (k : lkind)
       Ok ({| s_sys := sys2; s_cache := (lname, cache_key parent name, d) :: s_cache st |}, d)
   end.
 
+(** Pipeline.load_and_run_pipeline, before the loader runs:
+    [if self.py_dir: add_sys_path(self.py_dir)] *)
+Definition pydir_sys (e : env) (sys : sysst) (pydir : option string) : sysst :=
+  match pydir with
+  | Some d => if d =? "" then sys else add_sys_path e sys (PStr d)
+  | None => sys
+  end.
+
 (** * Running: generated pipelines are  probe ; [sibling custom step] ; pype calls *)
 Record call := { c_name : string; c_opts : pype_opts }.
 
@@ -351,11 +359,7 @@ Fixpoint run_pipeline (fuel : nat) (w : world) (st : state) (loader pydir : opti
   | S f =>
       let e := w_env w in
       if negb (name_ok name) then (st, [], SUnsup) else
-      (* if self.py_dir: add_sys_path(self.py_dir) *)
-      let sys1 := match pydir with
-                  | Some d => if d =? "" then s_sys st else add_sys_path e (s_sys st) (PStr d)
-                  | None => s_sys st
-                  end in
+      let sys1 := pydir_sys e (s_sys st) pydir in
       let st1 := {| s_sys := sys1; s_cache := s_cache st |} in
       let lname := effective_loader loader in
       match loader_kind lname with
@@ -411,13 +415,18 @@ Definition mk_world (cwd subdir builtin : string) (pipes : list (string * pipe))
 
 (** observation = probe / module events, then the outcome, then what pypyr appended to
     sys.path, then the import-time constants of the file loader *)
-Definition env_event (w : world) (real_builtin : string) : event :=
-  ["env"; e_cwd (w_env w); cwd_pipelines (w_env w); real_builtin; FILE_LOADER].
+(** import-time default of [builtin_pipelines_dir]: [Path(__file__).parents[1] / 'pipelines']
+    for pypyr/loaders/file.py inside the repository at [repo] *)
+Definition default_builtin (repo : string) : string :=
+  joinpath (joinpath repo "pypyr") "pipelines".
 
-Definition run_case (w : world) (real_builtin : string) (loader pydir : option string)
+Definition env_event (w : world) (repo : string) : event :=
+  ["env"; e_cwd (w_env w); cwd_pipelines (w_env w); default_builtin repo; FILE_LOADER].
+
+Definition run_case (w : world) (repo : string) (loader pydir : option string)
            (name : string) : res (list event) :=
   let '(st, ev, s) := run_pipeline FUEL w state0 loader pydir name PNone in
-  let tail := ["syspath" :: syspath (s_sys st); env_event w real_builtin] in
+  let tail := ["syspath" :: syspath (s_sys st); env_event w repo] in
   match s with
   | SUnsup => Unsup
   | SDone => Ok (ev ++ ["ok"] :: tail)%list
@@ -426,9 +435,9 @@ Definition run_case (w : world) (real_builtin : string) (loader pydir : option s
 
 Definition obs_eqb : list event -> list event -> bool := list_eqb (list_eqb String.eqb).
 
-Definition check_case (w : world) (real_builtin : string) (loader pydir : option string)
+Definition check_case (w : world) (repo : string) (loader pydir : option string)
            (name : string) (obs : list event) : nat :=
-  verdict obs_eqb (run_case w real_builtin loader pydir name) (Ok obs).
+  verdict obs_eqb (run_case w repo loader pydir name) (Ok obs).
 
 Definition mkopts l r p d : pype_opts :=
   {| o_loader := l; o_resolve := r; o_parent := p; o_pydir := d |}.
